@@ -90,6 +90,16 @@ CHECKS = {
    note=NOTE_COMMON+" Back ends are stubs (identity contracts); the HDF5 layer and Survey/Simulation (de)serialisation are only covered by the concrete file round trip; key precondition (no '>' / '_') is stronger than needed for emg3d's own keys, which are run concretely.",
    technique="symbolic execution with z3 String keys (forking dict look-ups / split / contains) + SMT validity of key equalities; solver-constructed counterexample keys replayed through real files",
    ref="DESIGN.md §6 C17"),
+ 'C20': dict(
+   text="The Fourier bookkeeping properties, interpolate() and freq2time() are executed with symbolic required frequencies, band "
+        "edges, explicit input frequencies and a symbolic complex spectrum; every ordering of frequencies relative to fmin/fmax "
+        "(including coincidences) is a path; per path z3 decides: three disjoint exhaustive groups {f<fmin, fmin<=f<=fmax, "
+        "f>fmax}, computed frequencies inside the band, zero above, a datum is stored only at a required frequency equal to "
+        "its own, pass-through where computed == required, the extrapolation is anchored at (1e-100 Hz, Re d[0]) plus exactly "
+        "the computed data, and the reference transform receives the filled spectrum at the required frequencies.",
+   note=NOTE_COMMON+" InterpolatedUnivariateSpline (interpolating: passes through its data), PchipInterpolator and empymod's transform are contract stubs whose INPUTS are checked; monotonic decay of the extrapolated imaginary part and numerical equality with the transform are outside.",
+   technique="symbolic execution with forking comparisons of symbolic frequencies (path = ordering class) + LIA/LRA validity queries; environment stubs for spline/PCHIP/transform",
+   ref="DESIGN.md §6 C20"),
  'C05': dict(
    text="Bounded symbolic execution with the grid shape as z3 integers: MGParameters._max_level, _current_sc_dir, _current_lr_dir, "
         "smoothing dispatch, multigrid recursion and _terminate run with numerics stubbed; the explorer forks on the code's "
